@@ -618,16 +618,42 @@ Proof.
   repeat (destruct Hc as [->|Hc]; [split; reflexivity|]). subst m. split; reflexivity.
 Qed.
 
+Lemma land_128 e : N.land e 128 = if N.testbit e 7 then 128 else 0.
+Proof.
+  apply N.bits_inj. intros i. rewrite N.land_spec.
+  change 128 with (2 ^ 7). rewrite N.pow2_bits_eqb.
+  destruct (N.eqb_spec 7 i) as [<-|Hne].
+  - destruct (N.testbit e 7); cbn [andb]; [rewrite N.pow2_bits_true; reflexivity|rewrite N.bits_0; reflexivity].
+  - rewrite andb_false_r. destruct (N.testbit e 7); [|rewrite N.bits_0; reflexivity].
+    rewrite N.pow2_bits_false by exact Hne. reflexivity.
+Qed.
+
+(* the guard of the decoder, in protocol terms: a button has a name unless bit 7 is set (buttons
+   8..11) or it is the horizontal wheel (wheel bit with button 2 or 3, codes 66 / 67) *)
+Definition mouse_named (e : N) : bool :=
+  negb (N.testbit e 7) && (negb (N.testbit e 6) || (e mod 4 <? 2)).
+
+Lemma mouse_guard e :
+  (negb (N.land e 128 =? 0) || negb (N.land e 64 =? 0) && (1 <? N.land e 3)) = negb (mouse_named e).
+Proof.
+  unfold mouse_named. rewrite land_128, land_64.
+  change 3 with (N.ones 2). rewrite N.land_ones. change (2 ^ 2) with 4.
+  assert (H4 : e mod 4 < 4) by (apply N.mod_lt; lia).
+  destruct (N.testbit e 7), (N.testbit e 6); cbn [N.eqb negb orb andb]; try reflexivity.
+  destruct (N.ltb_spec 1 (e mod 4)), (N.ltb_spec (e mod 4) 2); try reflexivity; lia.
+Qed.
+
 Theorem dec_mouse_protocol data name mode row col :
   dec_mouse data = Ok (RSome (PMouse name mode row col)) ->
   exists body e rest last,
     mid data 3 1 = Ok body /\ numbers_decode body 59 = e :: (col + 1) :: (row + 1) :: rest /\
     index data (length data - 1) = Ok last /\
+    mouse_named e = true /\
     mode = (e / 4) mod 8 + (if last =? 77 then 256 else 0) /\
     name = (let button := e mod 4 in
             if N.testbit e 6
-            then (if button =? 0 then 4 else if button =? 1 then 5 else 3)     (* wheel down / up / other: move *)
-            else if button =? 3 then 3 else button).                          (* left, middle, right / move *)
+            then (if button =? 0 then 4 else 5)                  (* wheel down / wheel up *)
+            else if button =? 3 then 3 else button).             (* left, middle, right / move *)
 Proof.
   intros H. pose proof H as H0.
   destruct (dec_mouse_spec _ _ _ _ _ H) as (body & e & rest & last & Hb & Hn & Hl & Hm).
@@ -637,22 +663,35 @@ Proof.
   assert (E3 : N.land e 3 = e mod 4) by (change 3 with (N.ones 2); rewrite N.land_ones; reflexivity).
   assert (Hlt : (e / 4) mod 8 < 8) by (apply N.mod_lt; lia).
   destruct (small_masks _ Hlt) as [M1 M2].
-  split.
+  unfold dec_mouse in H0. rewrite Hb in H0. cbn [bind] in H0. rewrite Hn in H0.
+  destruct (checked_sub1 (col + 1)) as [c'|]; [|discriminate].
+  destruct (checked_sub1 (row + 1)) as [r'|]; [|discriminate].
+  rewrite Hl in H0. cbn [bind] in H0. cbv zeta in H0. rewrite mouse_guard in H0.
+  destruct (mouse_named e) eqn:Hg; cbn [negb] in H0; [|discriminate].
+  split; [reflexivity|]. split.
   - rewrite Hm. cbv zeta. rewrite E7, M1. destruct (last =? 77); [exact M2|rewrite N.add_0_r; reflexivity].
-  - unfold dec_mouse in H0. rewrite Hb in H0. cbn [bind] in H0. rewrite Hn in H0.
-    destruct (checked_sub1 (col + 1)) as [c'|]; [|discriminate].
-    destruct (checked_sub1 (row + 1)) as [r'|]; [|discriminate].
-    rewrite Hl in H0. cbn [bind] in H0.
-    assert (Hname : name =
+  - assert (Hname : name =
       (if negb (N.land e 64 =? 0)
        then (if N.land e 3 =? 0 then 4 else if N.land e 3 =? 1 then 5 else 3)
        else if N.land e 3 =? 0 then 0 else if N.land e 3 =? 1 then 1 else if N.land e 3 =? 2 then 2 else 3))
       by (injection H0; intros; subst; reflexivity).
     rewrite Hname, E3, land_64. cbv zeta.
     assert (Hb4 : e mod 4 < 4) by (apply N.mod_lt; lia).
-    destruct (N.testbit e 6); [change (64 =? 0) with false|change (0 =? 0) with true]; cbn [negb].
-    + reflexivity.
-    + set (b := e mod 4) in *.
-      assert (b = 0 \/ b = 1 \/ b = 2 \/ b = 3) as Hc by lia.
+    unfold mouse_named in Hg. apply andb_prop in Hg. destruct Hg as [_ Hg].
+    set (b := e mod 4) in *.
+    destruct (N.testbit e 6); [change (64 =? 0) with false|change (0 =? 0) with true]; cbn [negb orb] in *.
+    + apply N.ltb_lt in Hg. assert (b = 0 \/ b = 1) as [-> | ->] by lia; reflexivity.
+    + assert (b = 0 \/ b = 1 \/ b = 2 \/ b = 3) as Hc by lia.
       destruct Hc as [-> |[-> |[-> | ->]]]; reflexivity.
+Qed.
+
+(* ... and a report whose button has no name is unrecognised *)
+Theorem dec_mouse_unnamed data body e c r rest last :
+  mid data 3 1 = Ok body -> numbers_decode body 59 = e :: c :: r :: rest ->
+  index data (length data - 1) = Ok last ->
+  mouse_named e = false -> dec_mouse data = Ok RNone.
+Proof.
+  intros Hb Hn Hl Hg. unfold dec_mouse. rewrite Hb. cbn [bind]. rewrite Hn.
+  destruct (checked_sub1 c); [|reflexivity]. destruct (checked_sub1 r); [|reflexivity].
+  rewrite Hl. cbn [bind]. cbv zeta. rewrite mouse_guard, Hg. reflexivity.
 Qed.
